@@ -2756,7 +2756,7 @@ impl<'ctx> ByteCompiler<'ctx> {
         if let Some(async_handler) = self.async_handler {
             self.patch_handler(async_handler);
         }
-        self.r#return(false);
+        self.r#return(None);
 
         let final_bytecode_len = self.next_opcode_location();
 
